@@ -88,8 +88,9 @@ def read_vel(eng, conf):
 # ---------------------------------------------------------------------------
 
 
-def hetero(name, wd, temperature=300):
-    """Engine `name` for a two-atom system with masses (15.999, 1.008); returns (engine, conf, masses)."""
+def hetero(name, wd, temperature=300, int_masses=False):
+    """Engine `name` for a two-atom system with masses (15.999, 1.008); returns (engine, conf, masses).
+    int_masses: the user wrote the masses as integers (16, 1) in the input (turtlemd, gromacs)."""
     from vf import scratch  # noqa: F401
 
     if name == "turtlemd":
@@ -98,12 +99,14 @@ def hetero(name, wd, temperature=300):
         p = os.path.join(_repo(), "turtlemd/H2")
         with open(os.path.join(p, "infretis.toml"), "rb") as f:
             cfg = tomli.load(f)
-        cfg["engine"]["particles"]["mass"] = [15.999, 1.008]
+        cfg["engine"]["particles"]["mass"] = [16, 1] if int_masses else [15.999, 1.008]
         cfg["engine"]["particles"]["name"] = ["O", "H"]
         eng = create_engine(cfg)
         eng.input_path = p
-        return eng, os.path.join(p, f"conf.{eng.ext}"), np.array([15.999, 1.008])
+        return eng, os.path.join(p, f"conf.{eng.ext}"), np.array([16.0, 1.0] if int_masses else [15.999, 1.008])
     if name == "gromacs":
+        if int_masses:
+            return gromacs(temperature=temperature, masses=(16, 1)) + (np.array([16.0, 1.0]),)
         return gromacs(temperature=temperature, masses=(15.999, 1.008)) + (np.array([15.999, 1.008]),)
     if name == "lammps":
         from infretis.classes.engines.lammps import LAMMPSEngine
